@@ -22,7 +22,7 @@ func init() {
 	register(&simk.Prop{
 		ID:    "C16",
 		Level: "exploration",
-		Rule: "sequences of 1..3 blocks (earlier ones possibly abandoned without waiting, as when block verification returns early) on one worker pool, each a seeded signature set of 0..40 auths mixing ed25519 (batched), secp256r1 and BLS with 0..3 invalid signatures at chosen positions (incl. first/last of a batch, only in the final partial batch, counts at batch-1, batch, batch+1, k*batch), 1..16 verification workers; the real AuthBatch + worker pool + real signature verification run under the seeded scheduler (Add, batch workers, pool workers, Done, Wait interleaved); verdict compared with one-by-one Auth.Verify; " +
+		Rule: "sequences of 1..3 blocks (earlier ones possibly abandoned without waiting, as when block verification returns early) on one worker pool, each a seeded signature set of 0..40 auths mixing ed25519 (batched), secp256r1 and BLS with 0..3 invalid signatures at chosen positions (incl. first/last of a batch, only in the final partial batch, counts at batch-1, batch, batch+1, k*batch), 1..16 verification workers; in 40% of the runs plain batching engines are registered for secp256r1 and BLS as well (several types with trailing partial batches); 6% of the ed25519 auths are small-order keys with R = identity, s = 0; in 10% of the runs the pool is stopped while the last block is being verified; the real AuthBatch + worker pool + real signature verification run under the seeded scheduler (Add, batch workers, pool workers, Done, Wait interleaved); verdict compared with one-by-one Auth.Verify; " +
 			"non-trivial = >=2 runnable tasks at some step and >= 2 signatures; distinct = distinct (schedule, type/validity vector, workers) hashes. The block-level half (Processor.Execute fails iff a signature is invalid) is exercised by the E2 engine.",
 		Exec: c16,
 		Real: []string{"chain.AuthBatch", "auth.ED25519Batch / engines", "auth.{ED25519,SECP256R1,BLS}.Verify with real cryptography", "internal/workers ParallelWorkers"},
@@ -187,6 +187,7 @@ func c16(r *simk.Run) *simk.Violation {
 	// in a tenth of the runs the node shuts the pool down while the last block's signatures are still being
 	// verified: the verdict of a job that was accepted before the shutdown must still be right
 	stopDuringLast := c.Bool(0.1)
+	extraEngines := c.Bool(0.4)
 	s.Run(r.T, func() {
 		w := workers.NewParallel(cores, 4)
 		var dones sync.WaitGroup
@@ -197,7 +198,14 @@ func c16(r *simk.Run) *simk.Violation {
 				s.Violate("C16/newjob", "NewJob failed: %v", err)
 				return
 			}
-			batch := chain.NewAuthBatch(logging.NoLog{}, auth.DefaultEngines(), job, blk.counts)
+			engines := auth.DefaultEngines()
+			if extraEngines {
+				// a VM may register batch engines for further signature types; every type's trailing partial
+				// batch has to reach the verification job
+				engines[auth.SECP256R1ID] = &c16Engine{}
+				engines[auth.BLSID] = &c16Engine{}
+			}
+			batch := chain.NewAuthBatch(logging.NoLog{}, engines, job, blk.counts)
 			for si, sg := range blk.sigs {
 				if stopDuringLast && bi == len(blocks)-1 && si == len(blk.sigs)/2 {
 					stopWg.Add(1)
@@ -268,4 +276,55 @@ func c16(r *simk.Run) *simk.Violation {
 		}
 	}
 	return nil
+}
+
+// c16Engine is a plain batching engine for any signature type: it collects (message, auth) pairs and
+// verifies them one by one when a batch is full or when the remainder is flushed.
+type c16Engine struct{}
+
+func (*c16Engine) Cache(chain.Auth) {}
+
+func (*c16Engine) GetBatchVerifier(cores int, count int) chain.AuthBatchVerifier {
+	size := max(count/max(cores, 1), 3)
+	return &c16Batch{size: size}
+}
+
+type c16Pair struct {
+	msg []byte
+	a   chain.Auth
+}
+
+type c16Batch struct {
+	size    int
+	pending []c16Pair
+}
+
+func c16VerifyAll(ps []c16Pair) func() error {
+	return func() error {
+		for _, p := range ps {
+			if err := p.a.Verify(context.Background(), p.msg); err != nil {
+				return err
+			}
+		}
+		return nil
+	}
+}
+
+func (b *c16Batch) Add(msg []byte, a chain.Auth) func() error {
+	b.pending = append(b.pending, c16Pair{msg, a})
+	if len(b.pending) < b.size {
+		return nil
+	}
+	ps := b.pending
+	b.pending = nil
+	return c16VerifyAll(ps)
+}
+
+func (b *c16Batch) Done() []func() error {
+	if len(b.pending) == 0 {
+		return nil
+	}
+	ps := b.pending
+	b.pending = nil
+	return []func() error{c16VerifyAll(ps)}
 }
